@@ -7,8 +7,9 @@
 (*   [act, reason, answer,            what the harness did: the event      *)
 (*    code, ran, hook,                what the code answered               *)
 (*    restarts, resub, alive, final]  projection of the real objects after *)
-(* The generated module spec/gen/Restart_traces_<tier>.tla EXTENDS this    *)
-(* one and defines the literal traces.  Every step must be a step of the   *)
+(* The traces are read from an ndjson file (one trace a line) in the single  *)
+(* initial state; the remaining steps of the chosen trace are kept  *)
+(* in the variable todo.  Every step must be a step of the                 *)
 (* corresponding action of Restart.tla (the actions are re-used, not       *)
 (* re-written) whose primed variables equal the logged projection.  TLC    *)
 (* follows all traces in one run (tid is chosen in the initial state) and  *)
@@ -17,26 +18,43 @@
 (*   - a trace that cannot be followed to its end into "step i of the code *)
 (*     is not a step of the specification",                                *)
 (*   - a non-empty set into "property violated in logged state i".         *)
-(* The constant Deviations is set to AllDeviations here: the traces are    *)
-(* compared with the code as built, the C12 predicates say whether what    *)
-(* the code did is allowed.                                                *)
+(* A step of the code may follow the demanded policy or any of the named   *)
+(* deviations of Restart.tla (\E D \in SUBSET AllDeviations): the trace    *)
+(* specification explains the code as built as well as a repaired code,    *)
+(* the C12 predicates say whether what the code did is allowed.            *)
 (***************************************************************************)
 EXTENDS Restart
 
-CONSTANT Traces          \* sequence of traces
-VARIABLES tid, pos
-tvars == <<tid, pos>>
+CONSTANT TraceFile        \* absolute path of the ndjson file written by the driver
+VARIABLES all,            \* the recorded traces (read once, in the initial state; dropped when a trace is chosen)
+          tid,            \* which trace (0: not yet chosen)
+          pos,            \* number of steps validated so far
+          todo            \* the steps of the trace that are still to be explained
+tvars == <<all, tid, pos, todo>>
 
-Steps(t) == Traces[t].steps
+Range(s) == {s[i] : i \in DOMAIN s}
+(* JSON arrays are sequences: the two sets of a configuration are rebuilt *)
+CfgOf(j) == [id |-> j.id, kind |-> j.kind, backend |-> j.backend, maxR |-> j.maxR, hookFile |-> j.hookFile,
+             onDisk |-> j.onDisk, restartOn |-> Range(j.restartOn), shutdownOn |-> Range(j.shutdownOn),
+             stable |-> j.stable, entry |-> j.entry]
+NoConfig == [id |-> -1, kind |-> "normal", backend |-> "local", maxR |-> 0, hookFile |-> "empty", onDisk |-> FALSE,
+             restartOn |-> {}, shutdownOn |-> {}, stable |-> TRUE, entry |-> "controller"]
 
-TraceInit == /\ tid \in DOMAIN Traces
-             /\ pos = 0
-             /\ InitWith(Traces[tid].c)
+(* one initial state: the file is read once *)
+TraceInit == /\ all = ndJsonDeserialize(TraceFile)
+             /\ tid = 0 /\ pos = 0 /\ todo = <<>>
+             /\ InitWith(NoConfig)
+
+(* choose a trace: the component of that trace in the state InitWith(its configuration) *)
+Start(t) == /\ tid = 0
+            /\ tid' = t /\ pos' = 0 /\ todo' = all[t].steps /\ all' = <<>>
+            /\ cfg' = CfgOf(all[t].c)
+            /\ UNCHANGED <<phase, last, restarts, resub, runs, cont, consec, final, ev>>
 
 (* the action the harness performed; the hook answer only matters when the specification reaches the package hook *)
 Performs(s) == CASE s.act = "Exit" -> Exit(s.reason)
-                 [] s.act = "PostMortem" -> \E a \in {s.answer, NA} : PostMortem(a)
-                 [] s.act = "Direct" -> \E a \in {s.answer, NA} : Direct(a)
+                 [] s.act = "PostMortem" -> \E D \in SUBSET AllDeviations : \E a \in {s.answer, NA} : PostMortemD(a, D)
+                 [] s.act = "Direct" -> \E D \in SUBSET AllDeviations : \E a \in {s.answer, NA} : DirectD(a, D)
                  [] s.act = "LateRestart" -> LateRestart(s.reason)
 
 (* the logged projection of the real objects is the state the action leads to *)
@@ -47,14 +65,17 @@ Observed(s) == /\ restarts' = s.restarts
                /\ ev'.ran = s.ran
                /\ s.act # "Exit" => (ev'.code = s.code /\ ev'.hook = s.hook)
 
-TraceNext == /\ pos < Len(Steps(tid))
-             /\ Performs(Steps(tid)[pos + 1])
-             /\ Observed(Steps(tid)[pos + 1])
-             /\ pos' = pos + 1
-             /\ tid' = tid
+Step == /\ tid # 0 /\ todo # <<>>
+        /\ Performs(Head(todo))
+        /\ Observed(Head(todo))
+        /\ todo' = Tail(todo)
+        /\ pos' = pos + 1
+        /\ UNCHANGED <<tid, all>>
+
+TraceNext == (\E t \in DOMAIN all : Start(t)) \/ Step
 
 TraceSpec == TraceInit /\ [][TraceNext]_<<vars, tvars>>
 
-TraceEmit == PrintT(ToJson([tid |-> tid, pos |-> pos, failing |-> Failing, dev |-> ev.dev,
+TraceEmit == tid # 0 => PrintT(ToJson([tid |-> tid, pos |-> pos, failing |-> Failing, dev |-> ev.dev,
                             runs |-> runs, cont |-> cont, consec |-> consec]))
 =============================================================================
